@@ -67,6 +67,9 @@ class Dep:
         self.open = []
         self.broken = False
         self.src_fid = None
+        self.src_stamp = None
+        self.src_oplog_len = 0
+        self.taint = None
 
     def sig(self):
         q = self.qcfg or {}
@@ -149,6 +152,9 @@ class World:
 
     # ---------------------------------------------------------------- execution
     def run(self):
+        from .core import pin_torch
+
+        pin_torch()
         cleaned = R.ambient_reset()
         if cleaned:
             self.log.add("pre-run-clean", cleaned)
